@@ -412,6 +412,10 @@ func (c *checker) run(j job) {
 			}
 			expectFail := j.wrong || (j.hook != nil && j.hook.expect != 200)
 			switch {
+			case sh.lax && !expectFail:
+				// only the lenient parser accepts this submission: refusing it is the log's right (the statement is conditional on 200)
+				c.r.Nontrivial(fmt.Sprintf("lax-refused|%d|%d|%s", sh.id, form, j.lk.Name))
+				c.r.Add("refusals_of_submissions_only_the_lenient_parser_accepts", 1)
 			case expectFail:
 				c.r.Nontrivial(fmt.Sprintf("neg|%d|%d|%s|%v|%v", sh.id, form, j.lk.Name, j.wrong, j.hook))
 			case supported(j.lk):
@@ -593,7 +597,7 @@ func silenceKlog() {
 // hook and refusal phases: every entry kind x hierarchy depth x AKI combination,
 // with the poison first among three others and last after one other.
 func reduced(s *shape, th bool) bool {
-	if s.val != "utc" || s.h.caEKU || s.h.ik == 4 || s.h.piEKU != 0 || s.h.sameSKI || s.h.caCT || s.alone {
+	if s.val != "utc" || s.h.caEKU || s.h.ik == 4 || s.h.piEKU != 0 || s.h.sameSKI || s.h.caCT || s.alone || s.lax {
 		return true
 	}
 	lay := (s.m == 3 && s.poison <= 0 && s.akiPos == 0) || (s.m == 1 && (s.poison < 0 || s.poison == s.m+b2i(s.leafAKI)) && s.akiPos == 0)
